@@ -971,6 +971,13 @@ func streamCors(g *G) { // C11, C12
 						items = append(items, g.pick([]string{"", " "})+name)
 					}
 					v = strings.Join(items, ",")
+					if g.chance(0.35) { // one name outside the configured list, before or after the allowed ones
+						if g.chance(0.5) {
+							v = v + ", X-Forbidden"
+						} else {
+							v = "X-Forbidden," + v
+						}
+					}
 				}
 				h = append(h, kv{"Access-Control-Request-Headers", v})
 			}
@@ -1163,6 +1170,22 @@ func streamHosts(g *G) { // C14
 				g.emit("hosts-del %d %s", hid, encB(d))
 				probe()
 			}
+			hid++
+		}
+		if g.chance(0.2) {
+			// upper-case letters inside the RULE of a parameter: Add/Delete lower-case the whole domain, rule included
+			doms2 := []string{"{Sub:[A-Z]+}.Example.com", "{id:\\D+}.n.example.com", "{v:[A-Z0-9]+}.API.example.com"}
+			g.emit("hosts %d %s", hid, encL(doms2[:1+g.intn(3)]))
+			probe := func() {
+				for _, h := range []string{"api.example.com", "API.example.COM:8080", "ab.n.example.com", "12.n.example.com", "v1.api.example.com", "x.example.com"} {
+					g.emit("hosts-match %d %s", hid, encB(h))
+				}
+			}
+			probe()
+			g.emit("hosts-add %d %s", hid, encB("{sub:[a-z]+}.example.com")) // the same domain in lower case: a duplicate
+			probe()
+			g.emit("hosts-del %d %s", hid, encB("{SUB:[a-z]+}.EXAMPLE.com"))
+			probe()
 			hid++
 		}
 		if g.chance(0.25) {
